@@ -527,6 +527,38 @@ func Now() time.Time {
 	return clockEpoch.Add(s.clock)
 }
 
+// After models time.After: a timer is a thread of the environment that waits
+// for nothing but the scheduler's decision, then moves the clock to at least d
+// past the moment the timer was made and sends the time on a buffered channel.
+// In the canonical order it comes after every thread that existed when it was
+// made, so by default it fires when the others have nothing left to do and one
+// deviation makes it fire ahead of any of them: "d elapsed before that step"
+// is an answer of the environment like every other. It is not a library
+// goroutine (a timer nobody waits for any more is not a leak).
+func After(d time.Duration) *Chan[time.Time] {
+	c := NewChan[time.Time](1)
+	s := S
+	if s == nil || s.aborting {
+		c.Send(clockEpoch)
+		return c
+	}
+	if s.clockObj == nil {
+		s.clockObj = NewObj("clock")
+	}
+	due := s.clock + d
+	GoNamed(fmt.Sprintf("%s.timer%d", s.cur.Name, s.cur.spawned), false, func() {
+		if s.clock < due {
+			s.clock = due
+		}
+		s.touch("timer-fires", nil, []*Obj{s.clockObj})
+		c.Send(clockEpoch.Add(s.clock))
+	})
+	return c
+}
+
+// Sleep models time.Sleep: the thread waits for a timer of its own.
+func Sleep(d time.Duration) { After(d).Recv() }
+
 // schedule picks the next thread to run. cur is the thread giving up control
 // (with its pending op set) or nil when it exited.
 func (s *Sched) schedule(cur *Thread, curAlive bool) {
